@@ -470,3 +470,114 @@ def absent(ctx, label, fi, what, consequence):
            function=ctx.fq(fi) if fi is not None else label, construct=f"absent: {what}", expected=f"{what} on the normal path",
            found=f"no such effect in the function: {consequence}")
     raise Abort()
+
+
+def python_traps(ctx, relpaths):
+    """Language traps that change behaviour for some inputs only, checked on the files a property is anchored in:
+    * a generator (generator expression, map / filter / zip / iter result) bound to a name and used more than once, or used inside a
+      loop: the first use consumes it (a membership test `x in gen` consumes up to the match), later uses see the rest;
+    * `is` / `is not` against an int / str / bytes literal: identity of equal values is an implementation detail."""
+    from sa.index import walk_no_nested
+    R = ctx.report
+    repo = ctx.repo
+    rid = f"{ctx.prop}-G3 language traps"
+    R.rule(rid, 0, "no generator consumed twice; no identity comparison with a literal")
+    n = 0
+    for m in repo.modules.values():
+        if m.relpath not in relpaths:
+            continue
+        for f in m.functions.values():
+            n += 1
+            par = None
+            gens = {}
+            for a in walk_no_nested(f.node):
+                if isinstance(a, ast.Assign) and len(a.targets) == 1 and isinstance(a.targets[0], ast.Name):
+                    v = a.value
+                    if isinstance(v, ast.GeneratorExp) or (isinstance(v, ast.Call) and isinstance(v.func, ast.Name) and v.func.id in ("map", "filter", "zip", "iter", "reversed")):
+                        gens[a.targets[0].id] = a
+            bad = []
+            for name, asg in gens.items():
+                loads = [x for x in walk_no_nested(f.node) if isinstance(x, ast.Name) and x.id == name and isinstance(x.ctx, ast.Load)]
+                rebinds = [x for x in walk_no_nested(f.node) if isinstance(x, ast.Name) and x.id == name and isinstance(x.ctx, ast.Store)]
+                if len(rebinds) > 1:
+                    continue
+                in_loop = False
+                if loads:
+                    if par is None:
+                        par = {}
+                        for p_ in ast.walk(f.node):
+                            for c_ in ast.iter_child_nodes(p_):
+                                par[c_] = p_
+                    for x in loads:
+                        p_ = par.get(x)
+                        while p_ is not None and p_ is not f.node:
+                            if isinstance(p_, (ast.For, ast.While)) and not (isinstance(p_, ast.For) and p_.iter is x) and asg not in ast.walk(p_):
+                                in_loop = True
+                            if isinstance(p_, (ast.ListComp, ast.SetComp, ast.DictComp, ast.GeneratorExp)) and not any(g_.iter is x for g_ in p_.generators[:1]):
+                                in_loop = True
+                            p_ = par.get(p_)
+                if len(loads) > 1 or in_loop:
+                    bad.append((loads[0], f"generator {name} is used {'inside a loop' if in_loop else str(len(loads)) + ' times'}: the first use consumes it"))
+            for c in walk_no_nested(f.node):
+                if isinstance(c, ast.Compare) and any(isinstance(o, (ast.Is, ast.IsNot)) for o in c.ops):
+                    for side in [c.left] + list(c.comparators):
+                        if isinstance(side, ast.Constant) and isinstance(side.value, (int, str, bytes)) and not isinstance(side.value, bool):
+                            bad.append((c, f"identity comparison with the literal {side.value!r}"))
+            if bad:
+                for node, what in bad:
+                    R.fail(rid, f"{ctx.fq(f)}: {what}", mod=m, node=node, function=ctx.fq(f), expected="the value is computed once into a list / compared with ==",
+                           found=what, key_extra=what[:40])
+            else:
+                R.ok(rid, ctx.fq(f))
+    return n
+
+
+HASH_REF = {"sha256": ("sha256", 32), "sha384": ("sha384", 48), "sha512": ("sha512", 64), "shake128": ("shake128", 16), "shake256": ("shake256", 32)}
+HASH_KEYS = {-16: "sha256", -43: "sha384", -44: "sha512", -18: "shake128", -45: "shake256",
+             "cose-alg-sha-256": "sha256", "cose-alg-sha-384": "sha384", "cose-alg-sha-512": "sha512", "cose-alg-shake128": "shake128",
+             "cose-alg-shake256": "shake256", "sha-256": "sha256", "sha-384": "sha384", "sha-512": "sha512", "shake128": "shake128", "shake256": "shake256"}
+
+
+def sibling_hash_tables(ctx, rid, modnames=None):
+    """Every table in the repository that maps a SUIT / COSE digest algorithm to a hash primitive (and output length) agrees with the
+    registry the envelope creator uses: SHA-256/384/512 and SHAKE128 with 16, SHAKE256 with 32 output bytes (the SUIT profile; RFC 9054
+    lists 32 / 64 for COSE in general - a table built from that refuses or mis-hashes the tool's own SHAKE digests)."""
+    R = ctx.report
+    repo = ctx.repo
+    R.rule(rid, 1, "per table: primitive and output length of every digest algorithm equal the creator's")
+    n = 0
+
+    def prim_len(v):
+        txt = ast.unparse(v).lower().replace("_", "").replace("-", "")
+        prim = next((p for p in ("shake128", "shake256", "sha3384", "sha3256", "sha3512", "sha256", "sha384", "sha512") if p in txt), None)
+        ints = [x.value for x in ast.walk(v) if isinstance(x, ast.Constant) and isinstance(x.value, int) and not isinstance(x.value, bool)]
+        return prim, (ints[-1] if ints else None)
+    for m in repo.modules.values():
+        if modnames is not None and m.name not in modnames:
+            continue
+        for d in ast.walk(m.tree):
+            if not isinstance(d, ast.Dict) or len(d.keys) < 3:
+                continue
+            keys = []
+            for k in d.keys:
+                kv = None
+                if isinstance(k, ast.Constant):
+                    kv = k.value
+                elif isinstance(k, ast.UnaryOp) and isinstance(k.op, ast.USub) and isinstance(k.operand, ast.Constant):
+                    kv = -k.operand.value
+                keys.append(kv)
+            if not all(k in HASH_KEYS for k in keys):
+                continue
+            pls = [prim_len(v) for v in d.values]
+            if not all(p for p, _ in pls):
+                continue
+            n += 1
+            bad = []
+            for k, (p, ln) in zip(keys, pls):
+                want_p, want_l = HASH_REF[HASH_KEYS[k]]
+                if p != want_p or (ln is not None and p.startswith("shake") and ln != want_l):
+                    bad.append(f"{k!r}: {p}{'/' + str(ln) if ln is not None else ''} (creator: {want_p}/{want_l})")
+            R.check(rid, not bad, f"{m.relpath}: table at line {d.lineno}", mod=m, node=d, function=m.name, expected="the creator's primitives and output lengths",
+                    found="; ".join(bad)[:300], key_extra=f"{m.relpath}:{sorted(map(str, keys))}")
+    if n < 1:
+        raise AnalysisError("no digest algorithm table found in the repository")
